@@ -117,6 +117,18 @@ func cmdDebug(args []string) {
 			jobs = append(jobs, job{e, o})
 		}
 	}
+	for _, lm := range P.Spec.Lemmas {
+		for _, pat := range fs.Args() {
+			if strings.Contains("lemma."+lm.Pkg+"."+lm.Label, pat) {
+				e := lemmaEnc(P, lm)
+				fmt.Printf("== %s: %d obligations unsupported=%q\n", e.key, len(e.obls), e.unsupported)
+				for _, o := range e.obls {
+					jobs = append(jobs, job{e, o})
+				}
+				break
+			}
+		}
+	}
 	vs := solveAll(jobs, *timeout, 16)
 	counts := map[string]int{}
 	for _, v := range vs {
